@@ -94,6 +94,32 @@ async fn scenario(sim: Arc<Sim>, unit: Value) -> Obs {
             _ => None,
         }
     };
+    // optional history: an honest peer is already connected to the caller, in either direction
+    let mut pre_connected: Vec<PeerId> = vec![];
+    match unit["pre"].as_str() {
+        Some("x_inbound") => {
+            if let Err(e) = x.connect(v.local_addr()).await {
+                viol!("setup", "X could not dial the caller: {e}");
+            }
+            pre_connected.push(xid);
+        }
+        Some("y_inbound") => {
+            if let Err(e) = y.connect(v.local_addr()).await {
+                viol!("setup", "Y could not dial the caller: {e}");
+            }
+            pre_connected.push(yid);
+        }
+        Some("x_outbound") => {
+            if let Err(e) = v.connect(x.local_addr()).await {
+                viol!("setup", "the caller could not dial X: {e}");
+            }
+            pre_connected.push(xid);
+        }
+        _ => {}
+    }
+    if !pre_connected.is_empty() {
+        tokio::time::sleep(ms(50)).await;
+    }
     let (mut ev, _) = v.subscribe().unwrap();
     let (mut ex, _) = x.subscribe().unwrap();
     let (mut ey, _) = y.subscribe().unwrap();
@@ -124,7 +150,7 @@ async fn scenario(sim: Arc<Sim>, unit: Value) -> Obs {
     sim.fabric.set_fate_budget(0);
     for (i, r, snap, listed_now, queued, t) in &results {
         let (h, expect, _) = dials[*i];
-        let ctx = format!("[dial #{i}: address held by {h:?}, {}]", match expect { Some(e) => format!("expecting {}", sim.label(&e)), None => "no expectation".to_string() });
+        let ctx = format!("[{}dial #{i}: address held by {h:?}, {}]", match unit["pre"].as_str() { Some(p) => format!("history {p}; "), None => String::new() }, match expect { Some(e) => format!("expecting {}", sim.label(&e)), None => "no expectation".to_string() });
         o.log.push(format!("{ctx} -> {:?} at {t}us", r.as_ref().map(|p| sim.label(p))));
         match r {
             Ok(p) => {
@@ -164,7 +190,7 @@ async fn scenario(sim: Arc<Sim>, unit: Value) -> Obs {
     let evs_x = drain_events(&mut ex);
     let evs_y = drain_events(&mut ey);
     // which identities may V legitimately be connected to
-    let mut allowed: Vec<PeerId> = vec![];
+    let mut allowed: Vec<PeerId> = pre_connected.clone();
     for (h, expect, _) in &dials {
         match (key_holder(*h), expect) {
             (Some(k), None) => allowed.push(k),
@@ -215,7 +241,7 @@ impl Check for C03 {
         CheckMeta {
             property: "C03",
             level: "fault_enumeration",
-            rule: "caller V, honest X and Y, an impostor replaying X's certificate without X's key, an impostor presenting [own certificate, X's certificate], and a dead address; every single dial (address holder x expected identity in {X, Y, none}) and every pair of dials (all 15 x 15 combinations x start offsets {0, 3, 9, 100} ms, the last one sequential), each explored over datagram fates within the deviation bound across both handshakes; distinct = distinct (holder, outcome) tuples".into(),
+            rule: "caller V, honest X and Y, an impostor replaying X's certificate without X's key, an impostor presenting [own certificate, X's certificate], and a dead address; every single dial (address holder x expected identity in {X, Y, none}), also with X or Y already connected to the caller (inbound or outbound) beforehand, and every pair of dials (all 15 x 15 combinations x start offsets {0, 3, 9, 100} ms, the last one sequential), each explored over datagram fates within the deviation bound across both handshakes; distinct = distinct (holder, outcome) tuples".into(),
             assumptions: vec!["three key pairs; the impostor completes whatever handshake the caller lets it complete and sends the acknowledgement".into()],
             exhaustive: true,
         }
@@ -233,6 +259,11 @@ impl Check for C03 {
         }
         for (h, e) in &kinds {
             u.push(json!({"dials":[[h, e, 0]],"bound":tier.pick(2, 3),"fate_budget":24}));
+        }
+        for pre in ["x_inbound", "y_inbound", "x_outbound"] {
+            for (h, e) in &kinds {
+                u.push(json!({"pre":pre,"dials":[[h, e, 0]],"bound":tier.pick(1, 2),"fate_budget":24}));
+            }
         }
         for (h1, e1) in &kinds {
             for (h2, e2) in &kinds {
